@@ -2,6 +2,8 @@ use super::Walrus;
 
 impl Walrus {
     pub fn append_for_topic(&self, col_name: &str, raw_bytes: &[u8]) -> std::io::Result<()> {
+        #[cfg(walrus_verif)]
+        crate::wal::verif::api("append", col_name, 1);
         self.mark_topic_dirty(col_name);
         let writer = self.get_or_create_writer(col_name)?;
         writer.write(raw_bytes)?;
@@ -10,6 +12,8 @@ impl Walrus {
     }
 
     pub fn batch_append_for_topic(&self, col_name: &str, batch: &[&[u8]]) -> std::io::Result<()> {
+        #[cfg(walrus_verif)]
+        crate::wal::verif::api("batch_append", col_name, batch.len());
         self.mark_topic_dirty(col_name);
         let writer = self.get_or_create_writer(col_name)?;
         writer.batch_write(batch)?;
